@@ -255,30 +255,30 @@ def Part.readChunk (p : Part) (s : Stream) (size : Nat) : Except Err (Bytes × P
 /-- `BodyPartReader.chunk_size` -/
 def chunkSize : Nat := Gen.C19.chunkSize
 
-def Part.readLoop : Nat → Part → Stream → Bytes → Except Err (Bytes × Part × Stream)
-  | 0, _, _, _ => .error .fuel
-  | f + 1, p, s, data =>
+def Part.readLoop : Nat → Part → Stream → Bytes → Nat → Except (Err × Nat) (Bytes × Part × Stream)
+  | 0, _, _, _, n => .error (.fuel, n)
+  | f + 1, p, s, data, n =>
     if p.atEof then .ok (data, p, s) else
     match p.readChunk s chunkSize with
-    | .error e => .error e
+    | .error e => .error (e, n)
     | .ok (c, p, s) =>
       let data := data ++ c
-      if data.length > p.maxSize then .error .size else Part.readLoop f p s data
+      if data.length > p.maxSize then .error (.size, n + 1) else Part.readLoop f p s data (n + 1)
 
-/-- `read(decode=False)` -/
-def Part.read (fuel : Nat) (p : Part) (s : Stream) : Except Err (Bytes × Part × Stream) :=
-  Part.readLoop fuel p s []
+/-- `read(decode=False)`; an error carries the number of `read_chunk` calls that succeeded -/
+def Part.read (fuel : Nat) (p : Part) (s : Stream) : Except (Err × Nat) (Bytes × Part × Stream) :=
+  Part.readLoop fuel p s [] 0
 
-def Part.releaseLoop : Nat → Part → Stream → Except Err (Part × Stream)
-  | 0, _, _ => .error .fuel
-  | f + 1, p, s =>
+def Part.releaseLoop : Nat → Part → Stream → Nat → Except (Err × Nat) (Part × Stream)
+  | 0, _, _, n => .error (.fuel, n)
+  | f + 1, p, s, n =>
     if p.atEof then .ok (p, s) else
     match p.readChunk s chunkSize with
-    | .error e => .error e
-    | .ok (_, p, s) => Part.releaseLoop f p s
+    | .error e => .error (e, n)
+    | .ok (_, p, s) => Part.releaseLoop f p s (n + 1)
 
-def Part.release (fuel : Nat) (p : Part) (s : Stream) : Except Err (Part × Stream) :=
-  Part.releaseLoop fuel p s
+def Part.release (fuel : Nat) (p : Part) (s : Stream) : Except (Err × Nat) (Part × Stream) :=
+  Part.releaseLoop fuel p s 0
 
 def Part.readline (p : Part) (s : Stream) : Except Err (Bytes × Part × Stream) :=
   if p.atEof then .ok ([], p, s) else
@@ -466,7 +466,8 @@ def Frame.next (cfg : Cfg) (fuel : Nat) (f : Frame) (s : Stream) : Except Err (N
   -- _maybe_release_last_part
   let r : Except Err (Frame × Stream) := match f.last with
     | some p =>
-      let r2 : Except Err (Part × Stream) := if !p.atEof then p.release fuel s else .ok (p, s)
+      let r2 : Except Err (Part × Stream) :=
+        if !p.atEof then (match p.release fuel s with | .error e => .error e.1 | .ok r => .ok r) else .ok (p, s)
       match r2 with
       | .error e => .error e
       | .ok (p, s) => .ok ({ f with unread := f.unread ++ p.unread, last := none }, s)
@@ -514,38 +515,40 @@ inductive Ev where
   | nestedEnd
   | done
   | err (e : Err)
+  | errAt (e : Err) (n : Nat)   -- inside a scripted action, after `n` successful reader calls
   | stuck       -- readline keeps returning b"" at stream EOF without at_eof
 deriving Repr
 
-def chunkLoop : Nat → Part → Stream → List Nat → Nat → List Bytes → Except Err (List Bytes × Part × Stream)
-  | 0, _, _, _, _, _ => .error .fuel
+def chunkLoop : Nat → Part → Stream → List Nat → Nat → List Bytes → Except (Err × Nat) (List Bytes × Part × Stream)
+  | 0, _, _, _, i, _ => .error (.fuel, i)
   | f + 1, p, s, sizes, i, acc =>
     if p.atEof then .ok (acc.reverse, p, s) else
     match p.readChunk s (sizes.getD (i % sizes.length) chunkSize) with
-    | .error e => .error e
+    | .error e => .error (e, i)
     | .ok (c, p, s) => chunkLoop f p s sizes (i + 1) (c :: acc)
 
-def partialLoop : Nat → Part → Stream → Nat → List Bytes → Except Err (List Bytes × Part × Stream)
-  | 0, p, s, _, acc => .ok (acc.reverse, p, s)
-  | k + 1, p, s, size, acc =>
+def partialLoop : Nat → Part → Stream → Nat → Nat → List Bytes → Except (Err × Nat) (List Bytes × Part × Stream)
+  | 0, p, s, _, _, acc => .ok (acc.reverse, p, s)
+  | k + 1, p, s, size, i, acc =>
     if p.atEof then .ok (acc.reverse, p, s) else
     match p.readChunk s size with
-    | .error e => .error e
-    | .ok (c, p, s) => partialLoop k p s size (c :: acc)
+    | .error e => .error (e, i)
+    | .ok (c, p, s) => partialLoop k p s size (i + 1) (c :: acc)
 
 /-- `while not part.at_eof(): lines.append(await part.readline())`, given up (`none`) when two
 consecutive empty results come back at stream EOF -/
-def lineLoop : Nat → Part → Stream → Bool → List Bytes → Except Err (Option (List Bytes × Part × Stream))
-  | 0, _, _, _, _ => .error .fuel
-  | f + 1, p, s, lastEmpty, acc =>
+def lineLoop : Nat → Part → Stream → Bool → Nat → List Bytes → Except (Err × Nat) (Option (List Bytes × Part × Stream))
+  | 0, _, _, _, i, _ => .error (.fuel, i)
+  | f + 1, p, s, lastEmpty, i, acc =>
     if p.atEof then .ok (some (acc.reverse, p, s)) else
     match p.readline s with
-    | .error e => .error e
+    | .error e => .error (e, i)
     | .ok (l, p, s) =>
       if l.isEmpty && lastEmpty && !p.atEof && s.atEof then .ok none
-      else lineLoop f p s l.isEmpty (l :: acc)
+      else lineLoop f p s l.isEmpty (i + 1) (l :: acc)
 
-def runAction (fuel : Nat) (a : Action) (p : Part) (s : Stream) : Except Err (Option (String × List Bytes × Part × Stream)) :=
+/-- one scripted action; an error carries the number of reader calls of this action that had succeeded -/
+def runAction (fuel : Nat) (a : Action) (p : Part) (s : Stream) : Except (Err × Nat) (Option (String × List Bytes × Part × Stream)) :=
   match a with
   | .read => match p.read fuel s with
     | .error e => .error e
@@ -554,18 +557,18 @@ def runAction (fuel : Nat) (a : Action) (p : Part) (s : Stream) : Except Err (Op
     | .error e => .error e
     | .ok (p, s) => .ok (some ("X", [], p, s))
   | .skip => .ok (some ("S", [], p, s))
-  | .readline => match lineLoop fuel p s false [] with
+  | .readline => match lineLoop fuel p s false 0 [] with
     | .error e => .error e
     | .ok none => .ok none
     | .ok (some (ls, p, s)) => .ok (some ("L", ls, p, s))
   | .chunks sizes => match chunkLoop fuel p s sizes 0 [] with
     | .error e => .error e
     | .ok (cs, p, s) => .ok (some ("C", cs, p, s))
-  | .partialRead k size => match partialLoop k p s size [] with
+  | .partialRead k size => match partialLoop k p s size 0 [] with
     | .error e => .error e
     | .ok (cs, p, s) =>
       match p.release fuel s with
-      | .error e => .error e
+      | .error e => .error (e.1, e.2 + cs.length)
       | .ok (p, s) => .ok (some ("P", cs, p, s))
 
 /-- iterate the whole body: the stack holds the open readers, innermost first; `quiet`
@@ -589,7 +592,7 @@ def drive (cfg : Cfg) (script : List Action) (descend : Bool) :
     | .ok (.body p, top, s) =>
       if quiet then drive cfg script descend fuel ((top, quiet) :: rest) s i acc else
       match runAction (fuel + 1) (script.getD (i % script.length) .read) p s with
-      | .error e => (Ev.err e :: acc).reverse
+      | .error e => (Ev.errAt e.1 e.2 :: acc).reverse
       | .ok none => (Ev.stuck :: acc).reverse
       | .ok (some (tag, data, p, s)) =>
         drive cfg script descend fuel (({ top with last := some p }, quiet) :: rest) s (i + 1)
